@@ -90,9 +90,23 @@ def has_md(spec) -> bool:
     return bool(S.parse_cigar(spec.cigar)) and spec.contig is not None
 
 
+class PerReadRef(dict):
+    """contig -> sequence the MD tags were computed from, with another reference for the read names in `other_names`
+    (a file whose alignments were made against two slightly different references)"""
+
+    def __init__(self, default, other, other_names):
+        super().__init__(default)
+        self.other, self.other_names = other, set(other_names)
+
+
+def ref_for(md_ref, spec):
+    return md_ref.other if isinstance(md_ref, PerReadRef) and spec.qname in md_ref.other_names else md_ref
+
+
 def tok_read(spec, md_ref, refbases=None, strip_md=False) -> list:
     """`md_ref`: contig -> sequence the MD tags were computed from; `refbases` overrides (padding stream)."""
     ops = S.parse_cigar(spec.cigar)
+    md_ref = ref_for(md_ref, spec)
     if refbases is None:
         if strip_md or not has_md(spec):
             rb = "-"
@@ -201,12 +215,25 @@ def oracle_rows(specs, rgs, loc, o: Opts, pairs_of=S.aligned_pairs):
     return rows, used
 
 
+def merge_sorted_bams(a, b, out):
+    """the records of two BAMs with the same header in one coordinate-sorted, indexed file (unplaced records last)"""
+    import pysam
+    with pysam.AlignmentFile(a) as fa, pysam.AlignmentFile(b) as fb:
+        recs = [x for x in fa.fetch(until_eof=True)] + [x for x in fb.fetch(until_eof=True)]
+        recs.sort(key=lambda x: (x.reference_id if x.reference_id >= 0 else 1 << 30, x.reference_start))
+        with pysam.AlignmentFile(out, "wb", header=fa.header) as fo:
+            for x in recs:
+                fo.write(x)
+    pysam.index(out)
+    return out
+
+
 def oracle_ref_conflict(used, loc, md_ref) -> bool:
     """does some used alignment cover an SNV whose REF differs from the reference base its MD tag encodes?"""
     ref_of = {p: als[0] for p, als in zip(loc.snv_positions, loc.snv_alleles) if als}
     for s in used:
         for _, r in S.aligned_pairs(s):
-            if r in ref_of and md_ref[s.contig][r].upper() != ref_of[r].upper():
+            if r in ref_of and ref_for(md_ref, s)[s.contig][r].upper() != ref_of[r].upper():
                 return True
     return False
 
@@ -879,6 +906,9 @@ def run(tier, replay=None):
     n_synth = {"warm": 1, "quick": 36, "thorough": 240}[tier]
     n_hand = {"warm": 3, "quick": 450, "thorough": 3000}[tier]
     n_err = {"warm": 2, "quick": 48, "thorough": 480}[tier]
+    if tier != "warm":
+        chk.require("error-stream:bam-ref:only-later-alignments-inconsistent",
+                    "a reference disagreement must be reported whichever alignment over the SNV carries it, not only the first one met")
     n_pad = {"warm": 1, "quick": 12, "thorough": 120}[tier]
     n_cli = {"warm": 1, "quick": 4, "thorough": 24}[tier]
     try:
@@ -1046,7 +1076,21 @@ def run(tier, replay=None):
                 seq = contigs["c1"]
                 md_ref = dict(contigs)
                 md_ref["c1"] = seq[:p] + r.choice([b for b in S.BASES if b != seq[p]]) + seq[p + 1:]
-            bam = S.write_bam(os.path.join(d, "e.bam"), md_ref, specs, rgs)
+                cover = [s_ for s_ in S.sort_reads(contigs, specs) if s_.contig == "c1" and has_md(s_)
+                         and any(rp == p for _, rp in S.aligned_pairs(s_))]
+                if i % 12 >= 6 and len(cover) >= 2:
+                    # only the LATER alignments over that SNV come from the other reference: the first one met is consistent
+                    first_name = cover[0].qname
+                    names = {s_.qname for s_ in cover[1:]} - {first_name}
+                    if names:
+                        md_ref = PerReadRef(contigs, md_ref, names)
+                        chk.count("error-stream:bam-ref:only-later-alignments-inconsistent")
+            if isinstance(md_ref, PerReadRef):
+                a_ = S.write_bam(os.path.join(d, "eA.bam"), contigs, [s_ for s_ in specs if s_.qname not in md_ref.other_names], rgs)
+                b_ = S.write_bam(os.path.join(d, "eB.bam"), md_ref.other, [s_ for s_ in specs if s_.qname in md_ref.other_names], rgs)
+                bam = merge_sorted_bams(a_, b_, os.path.join(d, "e.bam"))
+            else:
+                bam = S.write_bam(os.path.join(d, "e.bam"), md_ref, specs, rgs)
             if kind == "no-md":
                 bam = strip_md_bam(bam, os.path.join(d, "e2.bam"))
                 strip = True
